@@ -128,12 +128,14 @@ Theorem C08_h3_pinned_poisons_next_request :
   exists s, run3 false (mkCfg3 false true false) (init3 (mkCfg3 false true false)) [ZCancel CCanceled; LWaitCtx; LDialCtx] = Some s /\
             follow_ok false s = false /\ bclosed3 s = false /\ c3 s = C3Ret (CErr (ECause CCanceled)).
 Proof. exact h3_pinned_poisons_next_request. Qed.
+Print Assumptions C08_h3_pinned_poisons_next_request.
 
 Theorem C08_h3_pinned_body_error_not_cause :
   exists s, run3 false (mkCfg3 true false false) (init3 (mkCfg3 true false false))
               [LProceed; LStreamOpen; ZHdrSent; ZResp true; ZCancel CDeadline; LCancelG; LBodyFail] = Some s /\
             pipe3 s = BErr EOther.
 Proof. exact h3_pinned_body_error_not_cause. Qed.
+Print Assumptions C08_h3_pinned_body_error_not_cause.
 
 (* ---- retry layer (Request.do), all label sequences, any retry limit ---- *)
 
@@ -171,11 +173,13 @@ Print Assumptions C08_retry_returns_cause.
 Theorem C08_retry_pinned_sleep_not_interruptible : forall max s,
   r_phase s = PSleep -> rstep false max s RSleepCtx = None.
 Proof. exact retry_pinned_sleep_not_interruptible. Qed.
+Print Assumptions C08_retry_pinned_sleep_not_interruptible.
 
 Theorem C08_retry_pinned_deadline_never_stops : forall n,
   exists s, rrun false None rinit (RCancel CDeadline :: spin n) = Some s /\
             r_attempt s = n /\ r_phase s = PAttempt.
 Proof. exact retry_pinned_deadline_never_stops. Qed.
+Print Assumptions C08_retry_pinned_deadline_never_stops.
 
 (* ---- "the client remains fully usable": requests that SHARE something with the ended request ---- *)
 
@@ -197,6 +201,7 @@ Theorem C08_queue_front_only_refuted :
   let s := qrun true [QEnq 0; QEnq 1; QCancel 0; QFree] in
   q_idle s = 1 /\ has_live (q_queue s) = true /\ q_served s = [].
 Proof. exact queue_front_only_refuted. Qed.
+Print Assumptions C08_queue_front_only_refuted.
 
 (* HTTP/2 connection window: DATA arriving for streams already reset and forgotten is handed back -
    after any sequence of such frames the peer's window is the whole window again, up to a remainder
@@ -210,6 +215,7 @@ Print Assumptions C08_window_restored.
 Theorem C08_window_ignored_refuted : forall w ns,
   stray_frames false (win_init w) ns = Some (mkIn w 0, 0%Z, (w - fold_right Z.add 0 ns)%Z).
 Proof. exact window_ignored_refuted. Qed.
+Print Assumptions C08_window_ignored_refuted.
 
 (* HTTP/2 HPACK: the connection's encoder and the peer's decoder stay in step whatever requests are
    cancelled before or while their headers are written *)
@@ -221,6 +227,7 @@ Theorem C08_hpack_late_check_refuted :
   let s := hrun true [HSend 0 false false; HSend 1 false true; HSend 2 false false] in
   h_enc s = [0; 1; 2] /\ h_sent s = [0; 2].
 Proof. exact hpack_late_check_refuted. Qed.
+Print Assumptions C08_hpack_late_check_refuted.
 
 (* a dial shared by two requests: the one that joined never fails because the owner's context ended *)
 Theorem C08_share_waiter_never_fails : forall ls s,
@@ -237,6 +244,7 @@ Theorem C08_share_deadline_dropped_refuted :
   exists s, shrun false shinit [SCancelA CDeadline; SDialFails; SBSees] = Some s /\
             s_b s = BRet (Some (ECause CDeadline)).
 Proof. exact share_deadline_dropped_refuted. Qed.
+Print Assumptions C08_share_deadline_dropped_refuted.
 
 (* ---- the HTTP/2 transport's own re-send loop (REFUSED_STREAM / GOAWAY back-off 1 s, 2 s, 4 s ...) ---- *)
 
@@ -264,6 +272,7 @@ Print Assumptions C08_backoff_wf_reachable.
 Theorem C08_backoff_pinned_not_interruptible : forall s,
   b_phase s = PbBackoff -> bstep false s TCtxWake = None.
 Proof. exact backoff_pinned_not_interruptible. Qed.
+Print Assumptions C08_backoff_pinned_not_interruptible.
 
 Example C08_nonvacuous :
   let c := mkCfg1 false true true in
